@@ -158,11 +158,14 @@ class CGenerator:
         rval_str = self._parenthesize_if(
             n.rvalue, lambda n: isinstance(n, c_ast.Assignment)
         )
-        # An assignment used as the lvalue must keep its parentheses:
-        # (a = b) = c is not a = b = c. (A comma expression gets its
-        # parentheses from _visit_expr.)
+        # The lvalue is a unary expression: anything that binds weaker must
+        # keep its parentheses, e.g. (a = b) = c is not a = b = c. (A comma
+        # expression gets its parentheses from _visit_expr.)
         lval_str = self._parenthesize_if(
-            n.lvalue, lambda n: isinstance(n, c_ast.Assignment)
+            n.lvalue,
+            lambda n: isinstance(
+                n, (c_ast.Assignment, c_ast.TernaryOp, c_ast.BinaryOp, c_ast.Cast)
+            ),
         )
         return f"{lval_str} {n.op} {rval_str}"
 
